@@ -75,7 +75,7 @@ def fp_str_stream(ctx, rng, kinds, dist):
             elif op == "fpToFP_fp":
                 a = (fl(P.other(fmt)),)
             elif op in ("fpToFP_sbv", "fpToFPUnsigned"):
-                a = (bvarg(rng.choice([1, 8, 32, 64, 65, 128])),)
+                a = (bvarg(rng.choice([1, 8, 32, 64, 65, 128, 1024, 1025, 1200, 2048])),)
             elif op == "fpToFP_bv":
                 a = (bvarg(P.WIDTH[fmt]),)
             elif op in ("fpToSBV", "fpToUBV"):
